@@ -136,6 +136,24 @@ def nest(keypath, value):
     return d
 
 
+def _smart(d):
+    from vinegar.utils.smart_dict import SmartLookupDict
+    return SmartLookupDict(d)
+
+
+def _ordered(d):
+    import collections
+    return collections.OrderedDict(d)
+
+
+def _proxy(d):
+    import types
+    return types.MappingProxyType(d)
+
+
+DATA_TYPES = [dict, _smart, _ordered, _proxy]
+
+
 class DS:
     """recording data source whose calls can raise"""
 
@@ -153,7 +171,11 @@ class DS:
         self.log.append(("get_data", system_id))
         if self.getd[0] == "raise":
             raise RuntimeError("get_data failed")
-        return self.data(), "v1"
+        d = self.data()
+        # the data tree as other Mapping types a data source may legally return
+        self.calls = getattr(self, "calls", 0) + 1
+        wrap = DATA_TYPES[(self.calls + len(repr(self.getd))) % len(DATA_TYPES)]
+        return wrap(d), "v1"
 
     def data(self):
         g = self.getd
@@ -1004,7 +1026,7 @@ class C05(Check):
                 for allowed, expect_same in ((["192.168.77.129"], True), (["127.0.0.1", "::ffff:127.0.0.1"], False)):
                     h = F.TftpFileRequestHandler(cfg(allowed, nores, key))
                     h.set_data_source(MapDS())
-                    srv = TS.TftpServer([h], "::", 0, default_timeout=1.0, max_retries=0)   # dual stack: the client is ::ffff:127.0.0.1
+                    srv = TS.TftpServer([h], "::", common.free_udp_port(), default_timeout=1.0, max_retries=0)   # dual stack: the client is ::ffff:127.0.0.1
                     srv.start()
                     try:
                         port = srv._socket.getsockname()[1]
